@@ -46,6 +46,14 @@ CLAIMED["C06"] = dict(
     technique="Coq proof (association-list lemmas, vm_compute over the generated tables, induction on key lists) + extracted-model correspondence",
 )
 
+CLAIMED["C11"] = dict(
+    category="proof",
+    text="Theorems in coq/Props/Properties_C11.v about a statement-by-statement Gallina model of jose_jwk_gen (the 12 preparation hooks in the running order dumped from the harness, the oct/RSA/EC makers, the post-processing): an accepted template is consistent and every contradictory / unsupported / too-small / nothing-generable template is rejected (both directions: C11_accepted_is_consistent, C11_rejects, C11_accepts_iff); the algorithm-implied kty/crv/bytes table is RFC 7518's; an oct key's k is exactly the first n drawn octets with n the requested or implied size (any other 'bytes', 0 included, is a contradiction); RSA: 2048 <= bits <= 16384 on the 64-bit value, exponent accepted iff 3 or odd in [2^16, 2^256) and never negative, members are the generated numbers; generation-only members are gone for every accepted template; key_ops inferred exactly per algorithm kind and left alone when use/key_ops is given; other members pass through; required members present. What OpenSSL's generators deliver enters as Section hypotheses (modulus of 2*(bits/2) bits, n = pq, ed = 1 mod lcm, CRT members; d G = Q on the requested curve) which python re-checks on every generated key. Tie: ~3 600 templates (every registered algorithm x kty/crv/bits/bytes/e incl. boundaries, with/without use/key_ops) on jose_jwk_gen vs the extracted model after masking random material; every accepted key is used once with its algorithm; freshness (keys, CEKs, IVs, salts, epks never repeat) over ~2 100 pairwise checks.",
+    design_ref="DESIGN.md section 3 C11",
+    note="PARTIAL for freshness: a property of OpenSSL's RNG, checked dynamically only (no deterministic-RNG hook). Open known findings: a key generated for alg 'dir' does not work with dir; odd RSA sizes are rounded down by OpenSSL.",
+    technique="Coq proof on a statement-level model of the generation hooks (generators as Section hypotheses) + extracted-model correspondence with masked randomness and use-the-key oracle",
+)
+
 CLAIMED["C12"] = dict(
     category="proof",
     text="Theorems in coq/Props/Properties_C12.v about Gallina models of jwk_str/jose_jwk_thp/_thp_buf/jose_jwk_eql over the regenerated type table: the digest input holds exactly kty and the RFC 7638 required members (the generated lists are proved equal to RFC 7638's), ignores all other members, is the same for a key and its public half, string and buffer forms agree and the size query is the digest length; equality is exactly 'type known, kty and required members present and json_equal', is reflexive/symmetric/transitive (json_equal itself is proved an equivalence on duplicate-free values by induction on JSON trees), and a key without thumbprint equals nothing. Tie: extracted model (with Gallina SHA-1/2) vs the real functions on generated keys incl. non-ASCII/escaped/non-string members, all hash names, buffer sizes 0..65, pairs and triples; Python hashlib oracle.",
